@@ -231,6 +231,8 @@ class CommandManager(object):
         self.queue_lock_map = {}
         self.results = {}
         self.pause = set([])
+        # True while the solver thread is paused in `wait_for_cmd`.
+        self.solver_paused = False
 
     @on_root_proc
     def add_interface(self, callable, block=True):
@@ -276,9 +278,14 @@ class CommandManager(object):
         with self.qlock:
             while self.pause:
                 with self.plock:
+                    # Record that the solver is paused, a `wait` that starts
+                    # only after this notification must not miss it.
+                    self.solver_paused = True
                     self.plock.notify_all()
                 self.qlock.wait()
                 self.run_queued_commands()
+            with self.plock:
+                self.solver_paused = False
 
     def sync_commands(self):
         ''' send the pending commands to all the procs in parallel run '''
@@ -315,7 +322,8 @@ class CommandManager(object):
 
     def wait(self):
         with self.plock:
-            self.plock.wait()
+            while not self.solver_paused:
+                self.plock.wait()
 
     def cont(self):
         ''' continue after a pause command '''
